@@ -16,7 +16,7 @@ PROPS = ('C01', 'C02', 'C03', 'C04', 'C05', 'C06', 'C07', 'C08', 'C09', 'C19')
 NCPU = int(os.environ.get('VERIF_JOBS', '16'))
 
 BUDGET = {
-    'quick': dict(explore_s=330, pairs_s=90, pair_depth=8, pairN=2, validate=400),
+    'quick': dict(explore_s=420, pairs_s=75, pair_depth=8, pairN=2, validate=400),
     'thorough': dict(explore_s=2700, pairs_s=900, pair_depth=14, pairN=3, validate=3000),
 }
 
@@ -146,7 +146,8 @@ def run(tier, seed):
         layout_v, node, it = rs[0]
         roots[i] = (spec, layout_v)
         root_nodes[i] = node
-    opts = {'seed': seed, 'ra': True, 'sample_rate': 0.03 if tier == 'quick' else 0.01, 'pairN': B['pairN']}
+    opts = {'seed': seed, 'ra': True, 'sample_rate': 0.03 if tier == 'quick' else 0.01, 'pairN': B['pairN'],
+            'z3_new_states': 0.25 if tier == 'quick' else 1.0}
     pool = mp.Pool(NCPU, initializer=mapper._w_init, initargs=(None, roots, opts))
     try:
         return _run_with_pool(pool, tier, seed, B, prog, native, specs, roots, root_nodes, skipped, t_start)
@@ -275,8 +276,11 @@ def _run_with_pool(pool, tier, seed, B, prog, native, specs, roots, root_nodes, 
 
 
 def get_results(tier, seed):
+    t_lock = time.time()
     cp = cache_path(tier, seed)
     with _Lock('mapper-explore-%s' % tier):
+        if time.time() - t_lock > 5:
+            log('[mapper] waited %.0fs for another exploration holding the lock' % (time.time() - t_lock))
         if os.path.exists(cp) and os.environ.get('VERIF_NOCACHE') != '1':
             try:
                 d = json.load(open(cp))
@@ -284,7 +288,9 @@ def get_results(tier, seed):
                 return d
             except Exception:
                 pass
+        t_run = time.time()
         d = run(tier, seed)
+        log('[mapper] exploration finished in %.0fs' % (time.time() - t_run))
         d['cache_hit'] = False
         tmp = cp + '.tmp%d' % os.getpid()
         with open(tmp, 'w') as f:
@@ -366,7 +372,7 @@ def check(prop, tier, seed):
         'layouts_total': len(lays), 'layouts_at_fixpoint': sum(1 for l in lays if l['fixpoint']),
         'paths': sum(l['paths'] for l in lays), 'mir_statements_executed': sum(l['mir_statements'] for l in lays),
         'solver': {'branch decisions on key symbols (native union-find/disequality procedure)': sum(l['key_forks'] for l in lays),
-                   'z3 path-condition checks (every path reaching a configuration new to its worker)': sum(l.get('z3_path_checks', 0) for l in lays),
+                   'z3 path-condition checks (paths reaching a configuration new to their worker: a 25% sample in the quick tier, all in the thorough tier)': sum(l.get('z3_path_checks', 0) for l in lays),
                    'z3 models replayed natively (sampled paths and every violation)': d['validated'],
                    'note': 'path conditions are re-decided by z3 over Int-sorted key variables ranging over the 484 valid codes; an unsat answer on an explored path is an engine error (exit 2)'},
         'functions_encoded': d['functions_encoded'],
